@@ -40,7 +40,49 @@ theorem relay_end_to_end (cfgA cfgB : Cfg) (D : Bytes → Bytes) (Z : Bytes → 
   rw [decodeAll_encodeAll cfgB D Z (by decide) _ hsub f2 hlen]
   rfl
 
+/-- the gate is transparent once the player is in play: if `canForward` holds from the `i`-th dispatched frame
+    on, the gated relay IS the relay — nothing that is sent while the player is in play on the backend is dropped. -/
+theorem relay_gated_after_connect (intercepted : Bytes → Bool) (up : Nat → Bool) (i : Nat) (fs : List Bytes)
+    (hup : ∀ j, i ≤ j → up j = true) :
+    relayGated intercepted up i fs = relay intercepted fs := by
+  induction fs generalizing i with
+  | nil => rfl
+  | cons f t ih =>
+    unfold relayGated relay
+    rw [hup i (Nat.le_refl i), List.filter_cons]
+    have := ih (i + 1) (fun j hj => hup j (by omega))
+    unfold relay at this
+    by_cases hf : intercepted f = true <;> simp [hf, this]
+
+/-- …and what happens before: frames dispatched while the connected server is not yet set are dropped, the rest is
+    relayed in order (the transition window; the same behaviour as Velocity's `ClientPlaySessionHandler`) -/
+theorem relay_gated_window (intercepted : Bytes → Bool) (up : Nat → Bool) (i : Nat) (early late : List Bytes)
+    (hdown : ∀ j, i ≤ j → j < i + early.length → up j = false)
+    (hup : ∀ j, i + early.length ≤ j → up j = true) :
+    relayGated intercepted up i (early ++ late) = relay intercepted late := by
+  induction early generalizing i with
+  | nil => simpa using relay_gated_after_connect intercepted up i late (by simpa using hup)
+  | cons f t ih =>
+    rw [List.cons_append]
+    unfold relayGated
+    rw [hdown i (Nat.le_refl i) (by simp)]
+    simp only [Bool.and_false, Bool.false_eq_true, if_false]
+    apply ih (i + 1)
+    · intro j h1 h2; exact hdown j (by omega) (by simp; omega)
+    · intro j h1; exact hup j (by simp; omega)
+
 /-! ### tie to the source (regenerated facts) -/
+open Gate.Gen.C15 in
+/-- where the window lies: `handleJoinGame` writes JoinGame to the client (`playHandler.handleBackendJoinGame`)
+    BEFORE it sets the connected server, and `canForward` gates on exactly that field and the phase -/
+theorem src_transition_window :
+    handleJoinGameCalls.idxOf "playHandler.handleBackendJoinGame" <
+      handleJoinGameCalls.idxOf "b.serverConn.player.setConnectedServer" ∧
+    "b.serverConn.player.setConnectedServer" ∈ handleJoinGameCalls ∧
+    "player.connectedServer" ∈ canForwardCalls ∧ "serverConn.phase().ConsideredComplete" ∈ canForwardCalls ∧
+    forwardToServerCalls.head? = some "canForward" := by
+  decide
+
 open Gate.Gen.C15 in
 /-- unknown packets and the `default:` branch go to the forward functions, which write `pc.Payload`
     (the bytes as received) and never re-encode -/
@@ -53,5 +95,7 @@ theorem src_forward_writes_payload :
 
 /-! ### non-vacuity -/
 example : relay (fun f => f.head? == some 0) [[1, 2], [0, 9], [3]] = [[1, 2], [3]] := by decide
+example : relayGated (fun f => f.head? == some 0) (fun j => decide (2 ≤ j)) 0 [[7], [8], [1, 2], [0, 9], [3]] =
+    [[1, 2], [3]] := by decide
 
 end Gate.C15.Props
